@@ -14,7 +14,7 @@ ID = 'C06'
 LEVEL = 'exploration'
 TITLE = 'Requested mask is used; automatic mask minimises the ISO penalty score'
 RULE = ('automatic: all 8 (QR) / 4 (Micro) mask candidates of every explored symbol are rebuilt and scored independently; explored symbols: '
-        'every (version, level) x 3 contents, all numeric strings 0..9999 at 1-L and 1-H, all 1-/2-character alphanumeric strings at '
+        'every (version, level) x 3 contents, all numeric strings 0..9999 at 1-L and 1-H, all 5-digit strings at M4-M, all 1-/2-character alphanumeric strings at '
         'M2-M4, every symbol of 2-5 symbol Structured Append sequences [thorough: all 5-digit strings at versions 1 and 2, all 2-byte contents at M3/M4, all 40 versions]. requested: every mask '
         'k for every (version, level): unmasking with qrref pattern k must give the same data stream for all k and valid RS blocks. '
         'non-trivial = symbol returned and all candidates scored')
@@ -33,7 +33,12 @@ def gen_cases(tier):
     for lvl in ('L', 'H'):
         for lo in range(0, 10000, 100):
             yield ('num', 1, lvl, lo, lo + 100, 0)
+    for lo in range(0, 100000, 1000):
+        yield ('num', 'M4', 'M', lo, lo + 1000, 5)
     if not q:
+        for lvl in ('L', 'Q'):
+            for lo in range(0, 100000, 1000):
+                yield ('num', 'M4', lvl, lo, lo + 1000, 5)
         for lvl in ('L', 'M', 'Q'):
             for lo in range(0, 100000, 250):
                 yield ('num', 1 if lvl != 'Q' else 2, lvl, lo, lo + 250, 5)
